@@ -1,6 +1,7 @@
 package pppoe
 
 import (
+	"bytes"
 	"context"
 	"crypto/rand"
 	"encoding/binary"
@@ -453,6 +454,11 @@ func (s *Server) handlePADT(clientMAC net.HardwareAddr, sessionID uint16) {
 		return
 	}
 
+	// Only the station that owns the session may terminate it
+	if !bytes.Equal(session.ClientMAC, clientMAC) {
+		return
+	}
+
 	s.logger.Info("PPPoE session terminated by client",
 		zap.Uint16("session_id", sessionID),
 		zap.String("client_mac", clientMAC.String()),
@@ -485,6 +491,11 @@ func (s *Server) handleSession(clientMAC net.HardwareAddr, data []byte) {
 
 	session := s.sessions.GetSession(hdr.SessionID)
 	if session == nil {
+		return
+	}
+
+	// Only the station that owns the session may drive it
+	if !bytes.Equal(session.ClientMAC, clientMAC) {
 		return
 	}
 
